@@ -173,6 +173,8 @@ def make_jobs(tier, seed):
         jobs.append(('planted', seed * 1000003 + 500 + i, 60 if q else 90))
     for i in range(12 if q else 64):
         jobs.append(('probe', seed * 1000003 + 400 + i, 4000 if q else 12000))
+    for i in range(8 if q else 48):
+        jobs.append(('wild', seed * 1000003 + 600 + i, 3000 if q else 8000))
     return jobs
 
 
@@ -241,6 +243,28 @@ def run_job(job, acc):
             for i in range(job[2]):
                 exercise(acc, wd, hostile.random_bytes(r), 'bytes', r, with_chk=(i % 6 == 0),
                          origin='bytes seed=%d #%d' % (job[1], i))
+        elif kind == 'wild':
+            # syntactically valid trees of every shape (nested descriptions, descriptions on groups and
+            # nonterminals, odd names): most are rejected semantically, none may crash
+            from . import c05
+            P = probe.Probe()
+            try:
+                for i in range(job[2]):
+                    stmts = c05.rand_grammar(r)
+                    stmts = [('call', 'cmd', st[2]) if st[0] == 'call' else st for st in stmts]
+                    if not any(st[0] == 'call' for st in stmts):
+                        stmts.append(('call', 'cmd', c05.rand_tree(r, 3)))
+                    text = gast.print_grammar(stmts)[0]
+                    shell = r.choice(common.SHELLS)
+                    ans = P.ask('w', shell, 'script,dot', text)
+                    acc.count('library_pipeline_runs')
+                    acc.count('library_stage_' + str(ans.get('stage')))
+                    if ans.get('stage') in ('panic', 'crash'):
+                        acc.count('library_crash_candidates')
+                        exercise(acc, wd, text.encode(), 'wild-tree(found in-process)', r, shells=[shell],
+                                 origin='wild seed=%d #%d %s' % (job[1], i, ans.get('panic') or ''))
+            finally:
+                P.close()
         elif kind == 'probe':
             P = probe.Probe()
             try:
